@@ -631,6 +631,11 @@ func init() {
 		p.Tail = 0
 		p.Sched = SchedCfg{YieldProb: Pick(r, []float64{0, 0.2}), StallMax: 0}
 		if r.Bool(0.25) {
+			// a goroutine held up (up to 300 ms) inside the application's Logger or between a
+			// takeover's read and its write, while the outsider rewrites the record
+			p.Sched = SchedCfg{YieldProb: 0.6, StallMax: 300 * ms, StallSites: []string{"app.logger", "takeover.read"}}
+		}
+		if r.Bool(0.25) {
 			// connection notifications on top: the reconnect verification meets the odd bytes too
 			for i := range p.Insts {
 				p.Insts[i].Monitor, p.Insts[i].Grace = true, Pick(r, []time.Duration{time.Hour, 3 * p.H})
@@ -1043,7 +1048,7 @@ func init() {
 		}
 		p.Store = StoreCfg{Req: [2]Dur{0, 5 * ms}, Resp: [2]Dur{0, 5 * ms}, WatchDelay: [2]Dur{0, 0}}
 		p.Until = r.Dur(1*sec, 3*sec)
-		kinds := []string{AReadAPI, AReadAPI, AReadAPI, AValidate, AValidateOD, ARegister, ADisconnect, AReconnect, AClosed, AStop, AStopCtx, AStart, ARestart, AStatus}
+		kinds := []string{AReadAPI, AReadAPI, AReadAPI, AValidate, AValidateOD, ARegister, ADisconnect, AReconnect, AClosed, AStop, AStopCtx, AStart, ARestart, AStatus, ACancelStart, AStart}
 		m := 60 + r.Intn(120)
 		for k := 0; k < m; k++ {
 			a := Action{At: r.Dur(0, p.Until), Kind: Pick(r, kinds), Inst: r.Intn(n)}
@@ -1616,7 +1621,7 @@ func init() {
 	// the old run then succeeds - the new run leads on it - or fails because another owner was
 	// faster; that owner's record expires later and the new run has to fill the vacancy.
 	families["ctxrestart"] = func(r *Rng) *Plan {
-		p := &Plan{Judge: []string{"C19", "C06", "C08", "C05", "C03", "C04"}, NoJudge: []string{"C01", "C02", "C07"}}
+		p := &Plan{Judge: []string{"C19", "C06", "C08", "C05", "C03", "C04", "C02"}, NoJudge: []string{"C01", "C02", "C07"}}
 		baseTiming(r, p, hWide)
 		p.Insts = mkInsts(r, 1, 1)
 		p.Insts[0].V = Pick(r, []time.Duration{0, p.H})
@@ -1626,6 +1631,11 @@ func init() {
 		k := 1
 		t0 := time.Duration(0)
 		foreign := r.Bool(0.6)
+		if !foreign {
+			// only the election touches the record, the store answers well below H/2 except for the one
+			// slow Create (which C02's precondition check excludes if it is too slow): C02 applies
+			p.NoJudge = []string{"C01", "C07"}
+		}
 		if foreign {
 			// another owner's record is there first and expires TTL later (or is removed earlier):
 			// the slow Create is the one the instance sends when it notices that vacancy
